@@ -264,6 +264,8 @@ impl Engine for Kv {
     }
     fn generate(&self, seed: u64, prop: &str) -> RunRecord {
         let (cfg, cmds) = gen(seed);
+        crate::abort::tee_cfg("E3-kv", "kv", &serde_json::to_value(&cfg).unwrap());
+        crate::abort::tee_cmds(&cmds);
         let (outcome, _) = execute(&cfg, &cmds, false, prop);
         RunRecord { engine: "E3-kv", profile: "kv".into(), cfg: serde_json::to_value(&cfg).unwrap(), cmds: cmds.iter().map(|c| serde_json::to_value(c).unwrap()).collect(), outcome }
     }
